@@ -332,7 +332,12 @@ def native_layouts(chk):
     b2 = sol.TreeBuilder()
     su2 = c15.probe_file(b2)
     text2, starts2 = sol.print_source(su2)
-    if text2 == base:
+    from ..native import unhex as _unhex
+    dbg = chk.native.run([['debugtree', chk.native.file(text2)]])[0]
+    round_trip = dbg[0] == 'OK' and sol.strip_locs(_unhex(dbg[1])) == sol.debug_render(su2, chk.world.types)
+    if not round_trip:
+        chk.undecide('the printed probe file does not parse back to the probe tree: the construct-line stage is skipped')
+    if text2 == base and round_trip:
         same_offsets = {nm: t for nm, t in layouts.items() if nm.startswith('probe ') and len(t.encode()) == len(base.encode())
                         and all(a == b_ or (a in ' \n' and b_ in ' \n') for a, b_ in zip(t, base))}
         by_layout = {}
